@@ -173,6 +173,8 @@ def families(tier):
         pre = base + ["0 <= x3 < %d" % NOP, "a3 >= -1", "x4 == %d" % NOP, "a4 == 0"]
         parts = parts_product(cb=range(4), n1=(2,), x2=range(NOP), x3=(1, 3, 6, 7)) + \
             parts_product(cb=(4,), n1=(2,), x2=(1, 3, 6), x3=(1, 3))
+        heavy = [p for p in parts if "x2 == 0" in p]
+        parts = [p for p in parts if p not in heavy] + [p + [q] for p in heavy for q in ("a2 <= 0", "a2 == 1", "a2 >= 2")]
     else:
         pre = base + ["0 <= x3 <= %d" % NOP, "a3 >= -1", "x4 == %d" % NOP, "a4 == 0"]
         parts = refine(parts_product(cb=range(5), n1=(2, 3), x2=range(NOP)), ["x2 == 0"], "x3", range(NOP + 1))
